@@ -154,7 +154,13 @@ PInits(ts, i, acc) ==
 PPrimary(ts, i) ==
     LET k == TokK(ts, i) IN
     IF k = "ident" THEN Res([k |-> "id", n |-> ts[i].v, sp |-> ts[i].sp], i + 1)
-    ELSE IF k = "fstr" THEN Res([k |-> "fstr", segs |-> ts[i].v, sp |-> ts[i].sp], i + 1)
+    ELSE IF k = "fstr" THEN
+       \* every embedded text is exactly one expression (its own tokens are recorded with the segment)
+       (IF \A j \in 1..Len(ts[i].v) : "x" \in DOMAIN ts[i].v[j] =>
+               /\ "xt" \in DOMAIN ts[i].v[j]
+               /\ LET r == PExpr(ts[i].v[j].xt, 1) IN ~IsBad(r) /\ r.i = Len(ts[i].v[j].xt) + 1
+        THEN Res([k |-> "fstr", segs |-> ts[i].v, sp |-> ts[i].sp], i + 1)
+        ELSE Bad)
     ELSE IF k \in {"int", "uint", "float", "str", "bytes", "bool"} THEN Res([k |-> "lit", tk |-> k, v |-> ts[i].v, sp |-> ts[i].sp], i + 1)
     ELSE IF IsP(ts, i, "Null") THEN Res([k |-> "lit", tk |-> "null", v |-> "null", sp |-> ts[i].sp], i + 1)
     ELSE IF IsP(ts, i, "LParen") THEN
@@ -195,7 +201,9 @@ SameTree(a, b, spans) ==
     /\ (spans => ("sp" \in DOMAIN b /\ a.sp = b.sp))
     /\ CASE a.k = "id"   -> a.n = b.n
          [] a.k = "lit"  -> SameLit(a, b)
-         [] a.k = "fstr" -> a.segs = b.segs
+         [] a.k = "fstr" -> /\ Len(a.segs) = Len(b.segs)
+                            /\ \A j \in 1..Len(a.segs) : IF "s" \in DOMAIN a.segs[j] THEN "s" \in DOMAIN b.segs[j] /\ a.segs[j].s = b.segs[j].s
+                                                          ELSE "x" \in DOMAIN b.segs[j] /\ a.segs[j].x = b.segs[j].x
          [] a.k = "un"   -> a.op = b.op /\ a.n = b.n /\ SameTree(a.e, b.e, spans)
          [] a.k = "bin"  -> a.op = b.op /\ SameTree(a.l, b.l, spans) /\ SameTree(a.r, b.r, spans)
          [] a.k = "tern" -> SameTree(a.c, b.c, spans) /\ SameTree(a.a, b.a, spans) /\ SameTree(a.b, b.b, spans)
